@@ -3175,6 +3175,29 @@ impl WorldlineRuntime {
     }
 }
 
+#[cfg(feature = "echo_verif")]
+impl WorldlineRuntime {
+    /// Verification-only (H10): forwards to the already-public
+    /// [`HeadInbox::set_policy`] of a registered head. The head registry's
+    /// mutable accessors are crate-private, so an out-of-tree harness cannot
+    /// change a registered head's inbox policy without this door.
+    ///
+    /// # Errors
+    ///
+    /// Returns [`RuntimeError::UnknownHead`] if the head is not registered.
+    pub fn verif_set_inbox_policy(
+        &mut self,
+        key: WriterHeadKey,
+        policy: crate::head_inbox::InboxPolicy,
+    ) -> Result<(), RuntimeError> {
+        self.heads
+            .inbox_mut(&key)
+            .ok_or(RuntimeError::UnknownHead(key))?
+            .set_policy(policy);
+        Ok(())
+    }
+}
+
 fn receipt_correlation_current_basis(
     correlation: &ReceiptCorrelationRecord,
 ) -> (WorldlineId, WorldlineTick, Hash) {
